@@ -471,16 +471,31 @@ Proof.
     destruct (p_flag_any _); eauto. exists fl. split; auto. right; auto.
 Qed.
 
+Lemma p_ep_ready_len c s ds : length (p_ep_ready c s ds) <= length ds.
+Proof.
+  induction ds; simpl; auto. destruct (ep_map (st_ep s) a) as [i|];
+    [destruct (p_flag_any (p_ep_flags c s (ep_obj (st_ep s) i) a))|]; simpl; lia.
+Qed.
+Lemma p_batch_all c s (desc : bool) : length c <= p_max_events ->
+  p_ep_batch c s (if desc then rev (seq 0 (length c)) else seq 0 (length c)) =
+  p_ep_ready c s (if desc then rev (seq 0 (length c)) else seq 0 (length c)).
+Proof.
+  intros L. unfold p_ep_batch. apply firstn_all2.
+  pose proof (p_ep_ready_len c s (if desc then rev (seq 0 (length c)) else seq 0 (length c))) as H.
+  destruct desc; rewrite ?rev_length, seq_length in H; lia.
+Qed.
+
 Lemma p_ep_close_reported c ops d id desc :
+  length c <= p_max_events ->
   p_no_target c d -> d < length c -> p_ke d id (p_run true c ops) ->
   p_closed_logged d (p_step c (p_run true c ops) (POPoll desc)).
 Proof.
-  intros G L K. set (s := p_run true c ops) in *.
+  intros LM G L K. set (s := p_run true c ops) in *.
   assert (I : p_inv c true s) by apply p_inv_run.
   assert (W : p_wfs s) by apply p_wfs_run.
   clearbody s. unfold p_step. rewrite (ke_be _ _ _ K). cbv zeta.
   apply (p_logged_mono d (p_ep_poll c s desc)); [apply p_lmono_same; reflexivity|].
-  unfold p_ep_poll.
+  unfold p_ep_poll. rewrite (p_batch_all c s desc LM).
   set (ds := if desc then rev (seq 0 (length c)) else seq 0 (length c)).
   assert (Hd : In d ds).
   { unfold ds. destruct desc; [apply -> in_rev|]; apply in_seq; lia. }
